@@ -280,11 +280,154 @@ def instance_leaves(T, rng, fails, rep, K):
     rep.extra["instance_stream"] = "%d instances written" % n
 
 
+# ---------------------------------------------------------------- public entry points: the bytes OFXClient composes
+LEAF_RE = re.compile(r"<([A-Z0-9.]+)>([^<]*)")
+WIRE_FORMS = [(102, False, False), (102, False, True), (160, False, False), (102, True, False), (160, True, True), (203, True, False), (220, True, True)]
+PASSWORDS = ["p&a<ss", "Tom&Jerry1", "pa5s<w&rd", "a>b", "x\"y'z", "&amp;", "&lt;tag&gt;", "a&b;c", "<", "&", "1<2&&3>2", "pw&#38;", "plain", "é&€<中>"]
+
+
+def _sax_unescape(s):
+    return s.replace("&lt;", "<").replace("&gt;", ">").replace("&amp;", "&")
+
+
+def client_requests(T, rng, rep, fails, n):
+    """OFXClient.request_statements / request_accounts / request_profile (dryrun=True returns the request bytes) in every wire form: each leaf datum of the body is
+    valid on the wire, and the data of the elements whose value was given denote that value"""
+    S.scratch_env()
+    try:
+        from ofxtools.Client import OFXClient, StmtRq, CcStmtRq
+    except Exception as ex:
+        rep.extra["client_front_door"] = "skipped: %r" % (ex,)
+        return
+    utc = datetime.timezone.utc
+    done = 0
+    for k in range(n):
+        ver, close, pretty = WIRE_FORMS[k % len(WIRE_FORMS)]
+        pw = PASSWORDS[k % len(PASSWORDS)] if k < 2 * len(PASSWORDS) else (S.rand_string(rng, rng.choice([3, 8, 20])).strip() or "p&w")
+        given = {"USERID": rng.choice(["user1", "us&er<1>", "a&amp;b"]), "ORG": rng.choice(["AT&T Credit", "ORG", "O<R>G"]), "FID": rng.choice(["1001", "F&1"]),
+                 "BANKID": rng.choice(["123456789", "1&2<3>"]), "ACCTID": rng.choice(["000<1>&2", "12345"])}
+        try:
+            c = OFXClient("https://ofx.example.invalid/", userid=given["USERID"], org=given["ORG"], fid=given["FID"], version=ver, prettyprint=pretty,
+                          close_elements=close, bankid=given["BANKID"])
+        except Exception:
+            continue
+        calls = [("request_statements", lambda: c.request_statements(pw, StmtRq(acctid=given["ACCTID"], accttype="CHECKING"), CcStmtRq(acctid=given["ACCTID"]), dryrun=True, skip_profile=True), True),
+                 ("request_accounts", lambda: c.request_accounts(pw, datetime.datetime(2020, 1, 1, tzinfo=utc), dryrun=True, skip_profile=True), True),
+                 ("request_profile", lambda: c.request_profile(dryrun=True), False)]
+        for cname, f, signed in calls:
+            form = "v%d %s%s" % (ver, "closed" if close else "unclosed", "+indent" if pretty else "")
+            try:
+                with warnings.catch_warnings():
+                    warnings.simplefilter("ignore")
+                    body = f().read().decode("utf_8")
+            except Exception as ex:                     # refused: nothing is written
+                rep.count((cname, form, pw), nontrivial=False, kind="client:%s:refused" % cname)
+                continue
+            done += 1
+            rep.count((cname, form, pw, tuple(sorted(given.items()))), nontrivial=True, kind="client:%s:%s" % (cname, form))
+            i = body.find("<OFX>")
+            want = dict(given, **({"USERPASS": pw} if signed else {}))
+            # entity text handed to a constructor is un-escaped by String.convert (reading adopted in C10): the instance holds ref_unescape(value)
+            want = {t: S.ref_unescape(v) for t, v in want.items()}
+            if not signed:
+                want.pop("USERID", None)
+            seen = {}
+            for m in LEAF_RE.finditer(body[i:] if i >= 0 else body):
+                tag, datum = m.group(1), m.group(2).rstrip("\r\n ")
+                if datum == "":
+                    continue
+                seen.setdefault(tag, datum)
+                bad = None
+                if not wire_ok(datum):
+                    bad = "raw '&' in the data"
+                elif tag in want and _sax_unescape(datum) != want[tag] and seen[tag] is datum:
+                    bad = "the data do not denote the value given (%r)" % want[tag]
+                if bad:
+                    key = "OFXClient.download:USERPASS-unescaped" if tag == "USERPASS" else "OFXClient.%s:leaf-data-not-valid" % cname
+                    fails.append(C.Failure(key, "OFXClient(...).%s(%s), %s: <%s>%s on the wire: %s" % (cname, ("password=%r" % pw) if signed else "", form, tag, datum, bad),
+                                           {"kind": "client", "call": cname, "version": ver, "close_elements": close, "prettyprint": pretty, "password": pw, "given": given}))
+    rep.extra["client_front_door"] = "%d requests composed" % done
+
+
+HEADER_V1 = ("OFXHEADER:100\r\nDATA:OFXSGML\r\nVERSION:102\r\nSECURITY:NONE\r\nENCODING:USASCII\r\nCHARSET:1252\r\nCOMPRESSION:NONE\r\n"
+             "OLDFILEUID:NONE\r\nNEWFILEUID:NONE\r\n\r\n")
+
+
+def history_probe(T, rng, rep, fails, held):
+    """state: after a FAILED OFXTree.convert(), Aggregate.from_etree() and constructor, bounded strict strings are still refused when over their limit
+    (run last: it is about what earlier failures leave behind in the process).  [held]: String instances created before the failures."""
+    S.scratch_env()
+    notes = []
+    try:
+        import io
+        import ofxtools.models as M
+        from ofxtools.Parser import OFXTree
+        from ofxtools.models.base import Aggregate
+    except Exception as ex:
+        rep.extra["history_probe"] = "skipped: %r" % (ex,)
+        return
+    def attempt(label, f):
+        try:
+            with warnings.catch_warnings():
+                warnings.simplefilter("ignore")
+                f()
+            notes.append(label + ": succeeded")
+        except Exception as ex:
+            notes.append(label + ": " + type(ex).__name__)
+    def failing_parse():
+        t = OFXTree()
+        t.parse(io.BytesIO((HEADER_V1 + "<OFX><SIGNONMSGSRSV1><SONRS><LANGUAGE>ENG</SONRS></SIGNONMSGSRSV1></OFX>").encode("ascii")))
+        t.convert()
+    def failing_from_etree():
+        root = ET.Element("STMTTRN")
+        ET.SubElement(root, "TRNTYPE").text = "DEBIT"
+        Aggregate.from_etree(root)
+    attempt("OFXTree.convert of a response missing required children", failing_parse)
+    attempt("Aggregate.from_etree of an incomplete STMTTRN", failing_from_etree)
+    attempt("constructor STMTTRN(trntype='DEBIT')", lambda: M.STMTTRN(trntype="DEBIT"))
+    attempt("OFXTree.convert again", failing_parse)
+    rep.extra["history_probe"] = notes
+    why = "after " + "; ".join(notes)
+    def fail(what, **kw):
+        fails.append(C.Failure("String.strict:lowered-after-failed-conversion", what + " -- " + why, dict(kind="history", **kw)))
+    for ln in (1, 4, 32, 255):
+        for conv, which in ((T.String(ln), "a new String(%d)" % ln), (held.get(ln), "a String(%d) created earlier" % ln), (T.ListElement(T.String(ln, required=True)), "ListElement(String(%d))" % ln)):
+            if conv is None:
+                continue
+            for v in ("x" * (ln + 1), ("e\u0301" * ln)[:ln + 1], "&" * (ln + 2)):
+                with warnings.catch_warnings():
+                    warnings.simplefilter("ignore")
+                    out = S.call(T, conv, "unconvert", v)
+                rep.count(("history", which, v), nontrivial=False, kind="history:String.unconvert:%s" % out[0])
+                if out[0] == "ok":
+                    fail("%s.unconvert of %d characters wrote %r" % (which, len(v), out[1][:40]), length=ln, value=v)
+    utc = datetime.timezone.utc
+    try:
+        with warnings.catch_warnings():
+            warnings.simplefilter("ignore")
+            inst = M.STMTTRN(trntype="DEBIT", dtposted=datetime.datetime(2020, 1, 1, tzinfo=utc), trnamt=D("1"), fitid="f" * 256, name="n")
+            txt = inst.to_etree().find("FITID").text
+        fail("STMTTRN(fitid=256 characters) was accepted and to_etree() writes <FITID> with %d characters (limit 255)" % len(txt), length=255, value="f" * 256)
+    except Exception:
+        rep.count(("history", "STMTTRN.fitid"), nontrivial=False, kind="history:STMTTRN:refused")
+    try:
+        from ofxtools.Client import OFXClient, StmtRq
+        with warnings.catch_warnings():
+            warnings.simplefilter("ignore")
+            body = OFXClient("https://ofx.example.invalid/", userid="u" * 33, org="O", fid="1", version=102, bankid="1").request_statements(
+                "pw", StmtRq(acctid="1", accttype="CHECKING"), dryrun=True, skip_profile=True).read()
+        if b"<USERID>" + b"u" * 33 in body:
+            fail("OFXClient(userid=33 characters).request_statements(dryrun=True) wrote <USERID> with 33 characters (limit 32)", length=32, value="u" * 33)
+    except Exception:
+        rep.count(("history", "OFXClient.userid"), nontrivial=False, kind="history:OFXClient:refused")
+
+
 RULE = ("unconvert stream: decimals across the whole range (coefficients of 1..34 digits, exponents -60..+60, normalize()d values, signed zeros, NaN/sNaN/Infinity) x scales "
         "None/0..8, integers at +-10^n and beyond the str-digit limit, booleans, strings over all code points incl. markup and non-ASCII at the length limits, token sets, "
         "wrong-type values; every text the implementation writes is checked against the independent lexical oracle; wire stream: strings over all code points serialized by "
         "ET.tostring(method='html') and tostring_unclosed_elements (plain and indented), the datum cut out of the bytes; date-times over all whole-minute offsets and zone "
-        "names (implementation only). non-trivial = a text was written; distinct by (element, value) / (form, string)")
+        "names and sub-minute offsets (implementation only); request bytes of OFXClient.request_statements / request_accounts / request_profile (dryrun) in 7 wire forms with "
+        "markup in password, user id, org, fid, bank and account ids; bounded-string limits re-probed after failed OFXTree.convert / from_etree / constructor. non-trivial = a text was written; distinct by (element, value) / (form, string)")
 
 
 def run(rep, tier, rng):
@@ -297,6 +440,7 @@ def run(rep, tier, rng):
     fails = rep.failures
     enc = S.Enc()
     items, kept = [], []
+    held_strings = {ln: T.String(ln) for ln in (1, 4, 32, 255)}          # created before anything can have failed (used by the history probe)
 
     # ---- 1. unconvert: implementation, lexical oracle, model
     cases = [c for c in S.load_corpus(PROP) if c[1] in ("convert", "unconvert")] + unconvert_cases(T, rng, K)
@@ -389,6 +533,12 @@ def run(rep, tier, rng):
     # ---- 6. instances
     instance_leaves(T, rng, fails, rep, max(20, K // 2))
 
+    # ---- 7. public entry points: the request bytes OFXClient composes, in every wire form
+    client_requests(T, rng, rep, fails, 300 if thorough else 56)
+
+    # ---- 8. history: what failed conversions leave behind (last on purpose)
+    history_probe(T, rng, rep, fails, held_strings)
+
     for k in (0, len(kept) // 4, len(kept) // 2, len(kept) - 1):
         rep.sample(kept[k])
     rep.rule = RULE
@@ -422,6 +572,38 @@ def replay(obj):
             bad = not lexical_ok({"type": "Decimal"}, txt)
         except Exception as e:
             print("replay BAL(value=%r) refused: %r" % (d, e))
+    elif r.get("kind") == "client":
+        class _R:            # minimal stand-in for the report
+            extra = {}
+            def count(self, *a, **k): pass
+        fl = []
+        import random
+        S.scratch_env()
+        from ofxtools.Client import OFXClient, StmtRq
+        g = r["given"]
+        c = OFXClient("https://ofx.example.invalid/", userid=g["USERID"], org=g["ORG"], fid=g["FID"], version=r["version"], prettyprint=r["prettyprint"], close_elements=r["close_elements"], bankid=g["BANKID"])
+        body = c.request_statements(r["password"], StmtRq(acctid=g["ACCTID"], accttype="CHECKING"), dryrun=True, skip_profile=True).read().decode("utf_8")
+        want = {t: S.ref_unescape(v) for t, v in dict(g, USERPASS=r["password"]).items()}
+        for m in LEAF_RE.finditer(body[body.find("<OFX>"):]):
+            tag, datum = m.group(1), m.group(2).rstrip("\r\n ")
+            if datum and tag in want and (not wire_ok(datum) or _sax_unescape(datum) != want[tag]):
+                print("replay request_statements(password=%r): <%s>%s on the wire, value given %r" % (r["password"], tag, datum, want[tag]))
+                bad = True
+                break
+        else:
+            print("replay request_statements(password=%r): every given value is escaped and denoted" % (r["password"],))
+    elif r.get("kind") == "history":
+        class _R:
+            extra = {}
+            def count(self, *a, **k): pass
+        fl = []
+        import random
+        history_probe(T, random.Random(0), _R(), fl, {ln: T.String(ln) for ln in (1, 4, 32, 255)})
+        for f in fl[:3]:
+            print("replay history: %s" % f.what[:300])
+        bad = bool(fl)
+        if not fl:
+            print("replay history: over-long strict strings are still refused after the failed conversions (%s)" % _R.extra.get("history_probe"))
     elif r.get("kind") == "datetime" and str(r.get("value", "")).startswith("datetime."):
         v = eval(r["value"], {"datetime": datetime})          # the repr of an aware datetime / time written by this check
         b = {"type": r["type"]}
